@@ -292,7 +292,20 @@ class C11(core.Check):
             comp = r.choice([0, 2])
             nch = r.choice([3, 5, 8])
             pieces = [gen.content(r.choice(["random", "text", "zeros"]), r.randrange(2, 60), r.random()) for _ in range(nch)]
+            dup = None
+            if si % 4 in (0, 3) or (not self.quick and r.random() < 0.25):
+                # the new version lists the same chunk more than once (same checksum and sizes at several places of the index): each
+                # occurrence is a chunk of its own to write, and an interruption can fall between two of them
+                i_, j_ = sorted(r.sample(range(nch - 1), 2))
+                pieces[j_] = pieces[i_]
+                if nch >= 5:
+                    k_ = r.choice([x for x in range(nch - 1) if x not in (i_, j_)])
+                    pieces[k_] = pieces[i_]
+                dup = pieces[i_]
+                self.count("scenarios_with_repeated_chunks", 1)
             big = si >= nsc
+            if big:
+                dup = None
             if big:
                 # chunks larger than the library's 32 KiB scan / copy block: a cut can leave several full blocks of a partial chunk on disk
                 comp = 0 if si % 2 == 0 else 2
@@ -307,6 +320,10 @@ class C11(core.Check):
             A = None
             if si % 2 == 0:
                 ap = [p for p in pieces if r.random() < 0.4] + [r.randbytes(20)]
+                if dup is not None:
+                    # the old version has the tail of the new one but not the repeated chunk: the local copy extends the target to its
+                    # full length first, the repeated chunk's occurrences are then fetched one after the other into the holes
+                    ap = [p for p in pieces if p != dup and r.random() < 0.4] + [pieces[-1], r.randbytes(20)]
                 A = zckref.make_file(ap, comp_type=comp, dict_bytes=db, chunk_hash_type=pB.chunk_hash_type)
             A2 = None
             if si % 4 == 2:
